@@ -28,11 +28,14 @@ from pyvc import SObj, ClassVal, Builtin, PyRaise
 from pyvc.astmodel import is_ast_class
 from .common import mk_engine, ast_from_source
 from . import cfgsem as S
+from .C03_oracle import ORACLE, DRIVER, REPLAY_ONE
 
 TITLE = "CFG construction == Python control flow (all decision sequences); block interfaces agree; emulator == CPython (bounded)"
 B = "guppylang_internals.cfg.builder"
 NCHUNK = 8
+NCH_C = 8
 L_QUICK, L_THOROUGH = 6, 8
+LC_QUICK, LC_THOROUGH = 3, 5
 
 REPLAY = r'''
 # native replay of a CFGBuilder obligation: build the CFG with the real builder under CPython and
@@ -128,6 +131,9 @@ def to_real_ext(o):
 def run(chk):
     for i in range(NCHUNK):
         chk.section(f"cfg-builder-{i}", lambda i=i: layer_a(chk, i))
+    chk.section("block-interfaces", lambda: layer_b(chk))
+    for i in range(NCH_C):
+        chk.section(f"bounded-{i}", lambda i=i: layer_c(chk, i))
     chk.expected_min_obligations = 60
     chk.assumptions += [
         "meaning of a CFG object: statements of a block in order, then branch_pred picks successors[1] (true) / successors[0] (false); MakeIter/IterNext mean iter()/next-or-nothing (their lowering is C18/C19)",
@@ -214,3 +220,139 @@ def cfg_obligations(chk, e, mine, L, what="the-CFG-executes-exactly-Python's-tra
                 o.detail = (o.detail + " " if o.detail else "") + whys[0]
         n_ok += 1
     return n_ok
+
+
+def layer_b(chk):
+    """compile_cfg wires HUGR block k's i-th branch to the block of bb.successors[i]; sort_vars is a
+    canonical order on rows of places (so the outputs a block hands to a successor line up,
+    position by position, with the inputs the successor declares)."""
+    import itertools
+    CC = "guppylang_internals.compiler.cfg_compiler"
+    CORE = "guppylang_internals.checker.core"
+    e = mk_engine(chk)
+    for q in ("compile_cfg", "sort_vars", "compare_var"):
+        try:
+            e.func_info(CC, q)
+        except KeyError:
+            pass
+    m = e.module(CC)
+
+    # ---- B1 sort_vars: for every row of distinct places, in EVERY order it may arrive in, the result
+    # is the one list ordered by (not droppable, str(place)) — droppable places first, by name
+    def places(it, flags):
+        V = it.lookup_global(e.module(CORE), "Variable")
+        FA = it.lookup_global(e.module(CORE), "FieldAccess")
+        TA = it.lookup_global(e.module(CORE), "TupleAccess")
+        IF = it.lookup_global(e.module("guppylang_internals.tys.ty"), "InputFlags")
+        nof = it.getattr(IF, "NoFlags")
+        tys = [SObj(ClassVal("Ty", builtin=True), {"droppable": f, "name": f"ty{i}"}) for i, f in enumerate(flags)]
+        var = lambda n, t: SObj(V, {"name": n, "ty": t, "defined_at": None, "flags": nof, "is_func_input": False})  # noqa: E731
+        fld = lambda par, n, t: SObj(FA, {"parent": par, "field": SObj(ClassVal("StructField", builtin=True), {"name": n, "ty": t}), "exact_defined_at": None})  # noqa: E731
+        s_ = var("s", tys[0])
+        pool = [var("b", tys[0]), fld(s_, "y", tys[1]), fld(s_, "x", tys[2]), var("a", tys[3]), fld(fld(s_, "x", tys[2]), "u", tys[4]),
+                SObj(TA, {"parent": var("t", tys[0]), "elem_ty": tys[5], "index": 1, "exact_defined_at": None})]
+        return pool
+    NAMES = ["b", "s.y", "s.x", "a", "s.x.u", "t[1]"]
+    rows = [c for k in (2, 3) for c in itertools.combinations(range(6), k)] + [(0, 1, 2, 3), (1, 2, 4, 5), (0, 2, 3, 4)]
+    n_rows = 0
+    for row in rows:
+        flagsets = list(itertools.product((True, False), repeat=len(row))) if len(row) <= 3 else [(True,) * 4, (True, False, True, False), (False, True, True, False)]
+        for fl in flagsets:
+            flags = [True] * 6
+            for i, f in zip(row, fl):
+                flags[i] = f
+            want = [NAMES[i] for i in sorted(row, key=lambda i: (not flags[i], NAMES[i]))]
+
+            def t(it, row=row, flags=flags):
+                pool = places(it, flags)
+                f = it.lookup_global(m, "sort_vars")
+                outs = []
+                for perm in itertools.permutations(row):
+                    r = it.call(f, [[pool[i] for i in perm]], {})
+                    outs.append([it.call(it.builtins["str"], [p], {}) for p in r])
+                return outs
+            paths = e.explore(t)
+            chk.prove_paths(f"sort_vars[{'+'.join(NAMES[i] + ('' if flags[i] else '!') for i in row)}]:every-arrival-order-gives-the-list-ordered-by-(not-droppable,str(place))", paths,
+                            lambda p, want=want: z3.BoolVal(p.kind == "return" and all(o == want for o in p.value)), func=f"{CC}:sort_vars",
+                            replay=lambda m_, row=row, flags=flags: {"script": REPLAY_SORT, "input": {"row": list(row), "flags": flags}})
+            n_rows += 1
+    chk.record("sort_vars:rows-explored", n_rows >= 80, str(n_rows), kind="reachability")
+
+    # ---- B2 compile_cfg: every block compiled once, entry flagged, branch k of a block goes to its k-th successor
+    for shape in ([[1], [2, 3], [1], []], [[1, 2], [3], [3], []], [[0, 1], []], [[2, 1], [3], [1, 3], []]):
+        def t2(it, shape=shape):
+            n = len(shape)
+            bbs = [SObj(ClassVal("CheckedBB", builtin=True), {"idx": i, "is_exit": i == n - 1}) for i in range(n)]
+            for i, su in enumerate(shape):
+                bbs[i].fields["successors"] = [bbs[j] for j in su]
+                bbs[i].fields["predecessors"] = [bbs[k] for k in range(n) if i in shape[k]]
+                bbs[i].fields["sig"] = SObj(ClassVal("Signature", builtin=True), {"input_row": [], "output_rows": [[] for _ in su]})
+            cfg = SObj(ClassVal("CheckedCFG", builtin=True), {"bbs": bbs, "entry_bb": bbs[0], "exit_bb": bbs[-1], "output_ty": None})
+            log = []
+            compiled = []
+
+            def compile_bb(it2, a, k):
+                bb, builder, is_entry, ctx = a
+                compiled.append((bb.fields["idx"], is_entry))
+                return [("port", bb.fields["idx"], j) for j in range(max(1, len(bb.fields["successors"])))] if not bb.fields["is_exit"] else ("exit-block",)
+            e.models[f"{CC}:compile_bb"] = compile_bb
+            e.models[f"{CC}:insert_return_vars"] = lambda it2, a, k: None
+            e.models[f"{CC}:is_return_var"] = lambda it2, a, k: False
+            builder = SObj(ClassVal("CfgBuilder", builtin=True), {"_exit_op": SObj(ClassVal("X", builtin=True), {}), "parent_op": SObj(ClassVal("X", builtin=True), {}), "parent_node": "PN",
+                                                                  "hugr": SObj(ClassVal("H", builtin=True), {"_update_node_outs": Builtin("u", lambda *a: "PN2")})})
+            builder.fields["branch"] = Builtin("branch", lambda src, dst: log.append((src, dst)))
+            container = SObj(ClassVal("Container", builtin=True), {"add_cfg": Builtin("add_cfg", lambda *a: builder)})
+            it.call(it.lookup_global(m, "compile_cfg"), [cfg, container, [], None], {})
+            return log, compiled
+
+        def post2(p, shape=shape):
+            if p.kind != "return":
+                return z3.BoolVal(False)
+            log, compiled = p.value
+            n = len(shape)
+            want = []
+            for i, su in enumerate(shape):
+                for k, j in enumerate(su):
+                    want.append((("port", i, k), ("exit-block",) if j == n - 1 else [("port", j, x) for x in range(max(1, len(shape[j])))]))
+            return z3.BoolVal(sorted(map(repr, log)) == sorted(map(repr, want)) and len(log) == len(want) and sorted(compiled) == [(i, i == 0) for i in range(n)])
+        chk.prove_paths(f"compile_cfg[successors={shape}]:each-block-compiled-once(entry-flagged)/\\branch-k-of-a-block-is-wired-to-its-k-th-successor", e.explore(t2), post2,
+                        func=f"{CC}:compile_cfg")
+    for k in (f"{CC}:compile_bb", f"{CC}:insert_return_vars", f"{CC}:is_return_var"):
+        e.models.pop(k, None)
+    chk.use_engine(e)
+
+
+REPLAY_SORT = r'''
+import itertools
+from guppylang_internals.checker.core import Variable, FieldAccess, TupleAccess
+from guppylang_internals.compiler.cfg_compiler import sort_vars
+I = INPUT
+class Ty:
+    def __init__(s, d): s.droppable = d
+class F:
+    def __init__(s, n, t): s.name = n; s.ty = t
+tys = [Ty(f) for f in I["flags"]]
+s_ = Variable("s", tys[0], None)
+pool = [Variable("b", tys[0], None), FieldAccess(s_, F("y", tys[1]), None), FieldAccess(s_, F("x", tys[2]), None), Variable("a", tys[3], None),
+        FieldAccess(FieldAccess(s_, F("x", tys[2]), None), F("u", tys[4]), None), TupleAccess(Variable("t", tys[0], None), tys[5], 1, None)]
+outs = {tuple(str(p) for p in sort_vars([pool[i] for i in perm])) for perm in itertools.permutations(I["row"])}
+print(json.dumps({"violates": len(outs) != 1, "orders": sorted(map(list, outs))}))
+'''
+
+
+def layer_c(chk, i):
+    import json
+    from pyvc.report import run_replay
+    L = LC_QUICK if chk.tier != "thorough" else LC_THOROUGH
+    res = run_replay(ORACLE + DRIVER, {"tier": chk.tier, "chunk": i, "nchunks": NCH_C, "L": L}, chk.repo, timeout=6000)
+    if "evaluations" not in res:
+        chk.undecided(f"bounded[{i}/{NCH_C}]:programs", "oracle run failed: " + json.dumps(res)[:800])
+        return
+    w = res.get("witness")
+    o = chk.bounded_result(f"bounded[{i}/{NCH_C}]:emulator-result-stream==CPython(slice {i} of {NCH_C}; decision scripts of length <={L})", not res.get("violates"), res["evaluations"],
+                           detail=res.get("detail") or f"{res['evaluations']} (program, script) runs on the emulator and under CPython; {res['accepted']} of {res['programs']} programs accepted and terminating "
+                                                       f"({res['rejected']} rejected by the checker: {res['rejected_kinds']})",
+                           witness=w, func="guppylang_internals.compiler.cfg_compiler:compile_cfg")
+    if w:
+        o.replay.update({"script": ORACLE + REPLAY_ONE, "input": {"src": w["src"], "L": L}})
+    chk.record(f"bounded[{i}/{NCH_C}]:enough-programs-accepted", res["accepted"] >= 4, f"{res['accepted']} accepted of {res['programs']}", kind="reachability")
